@@ -14,6 +14,7 @@ import (
 	"sync"
 	"syscall"
 	"time"
+	"unsafe"
 
 	"verif/internal/ag"
 	"verif/internal/engine"
@@ -80,6 +81,65 @@ func runCLI(dir string, stdin []byte, bin string, args ...string) cliRun {
 	return r
 }
 
+// runCLIChunks runs the binary with a pipe as standard input and writes the chunks one at a time:
+// the next chunk is written only after the child has consumed the previous one (FIONREAD on the
+// pipe is 0) and a short pause, so that the child sees several short reads before end of input.
+// A reader that reads until EOF gets the concatenation whatever the timing.
+func runCLIChunks(dir string, chunks [][]byte, bin string, args ...string) cliRun {
+	ctx, cancel := context.WithTimeout(context.Background(), 120*time.Second)
+	defer cancel()
+	cmd := exec.CommandContext(ctx, bin, args...)
+	cmd.Dir = dir
+	var so, se bytes.Buffer
+	cmd.Stdout, cmd.Stderr = &so, &se
+	pr, pw, err := os.Pipe()
+	if err != nil {
+		return cliRun{Exit: -2, Stderr: "[exec error] " + err.Error()}
+	}
+	cmd.Stdin = pr
+	if err := cmd.Start(); err != nil {
+		pr.Close()
+		pw.Close()
+		return cliRun{Exit: -2, Stderr: "[exec error] " + err.Error()}
+	}
+	go func() {
+		defer pw.Close()
+		for _, c := range chunks {
+			if _, err := pw.Write(c); err != nil {
+				return // the child has gone
+			}
+			for i := 0; i < 5000; i++ {
+				var n int32
+				if _, _, e := syscall.Syscall(syscall.SYS_IOCTL, pr.Fd(), syscall.TIOCINQ, uintptr(unsafe.Pointer(&n))); e != 0 || n == 0 {
+					break
+				}
+				time.Sleep(time.Millisecond)
+			}
+			time.Sleep(20 * time.Millisecond)
+		}
+	}()
+	err = cmd.Wait()
+	pr.Close()
+	r := cliRun{Stdout: so.String(), Stderr: se.String()}
+	if ctx.Err() != nil {
+		r.TimedOut = true
+		r.Exit = -1
+		return r
+	}
+	if err != nil {
+		if ee, ok := err.(*exec.ExitError); ok {
+			r.Exit = ee.ExitCode()
+			if ws, ok := ee.Sys().(syscall.WaitStatus); ok && ws.Signaled() {
+				r.Exit = 128 + int(ws.Signal())
+			}
+		} else {
+			r.Exit = -2
+			r.Stderr += "\n[exec error] " + err.Error()
+		}
+	}
+	return r
+}
+
 var (
 	undefRe  = regexp.MustCompile(`rule '([^']*)' used but not defined`)
 	unusedRe = regexp.MustCompile(`rule '([^']*)' defined but not used`)
@@ -114,6 +174,8 @@ func residue(stderr string) string {
 	}
 	return strings.Join(keep, "\n")
 }
+
+var genOptSets = [][]string{{}, {"-inline"}, {"-switch"}, {"-inline", "-switch"}, {"-noast"}, {"-inline", "-switch", "-noast"}}
 
 func c15Check(prop, tier string) (*Outcome, error) {
 	bin, err := buildPeg()
@@ -158,7 +220,11 @@ func c15Check(prop, tier string) (*Outcome, error) {
 			knownHit[f]++
 			return
 		}
-		vios = append(vios, vio{id, fmt.Sprintf("%s: grammar `%s` strict=%v: want %s, got %s", kind, gshow, strict, want, got),
+		cmdline := ""
+		if i := strings.LastIndex(text, "\n# peg "); i >= 0 {
+			cmdline = " (" + text[i+3:] + ")"
+		}
+		vios = append(vios, vio{id, fmt.Sprintf("%s: grammar `%s` strict=%v%s: want %s, got %s", kind, gshow, strict, cmdline, want, got),
 			map[string]any{"grammar": gshow, "text": text, "strict": strict, "kind": kind, "want": want, "got": got, "exit": r.Exit, "stderr": clipS(r.Stderr, 1500)}})
 	}
 	for w := 0; w < runtime.NumCPU(); w++ {
@@ -175,13 +241,29 @@ func c15Check(prop, tier string) (*Outcome, error) {
 				an := ag.Analyze(g)
 				wantUndef, wantUnused, wantLeft := an.Undefined(), an.Unused(), an.LeftRecursive()
 				anyDiag := len(wantUndef)+len(wantUnused)+len(wantLeft) > 0
-				for _, strict := range []bool{false, true} {
+				// the diagnostics do not depend on the code-generation options: each grammar runs without
+				// -strict under one option set and with -strict under the next one of the rotation
+				// (thorough: every option set, with and without -strict)
+				type runCfg struct {
+					strict bool
+					opts   []string
+				}
+				runs := []runCfg{{false, genOptSets[gi%len(genOptSets)]}, {true, genOptSets[(gi+1)%len(genOptSets)]}}
+				if tier == "thorough" {
+					runs = nil
+					for _, o := range genOptSets {
+						runs = append(runs, runCfg{false, o}, runCfg{true, o})
+					}
+				}
+				for _, rc := range runs {
+					strict := rc.strict
 					_ = os.Remove(filepath.Join(dir, "out.go"))
-					args := []string{"-output", "out.go", "g.peg"}
+					args := append(append([]string{}, rc.opts...), "-output", "out.go", "g.peg")
 					if strict {
 						args = append([]string{"-strict"}, args...)
 					}
 					r := runCLI(dir, nil, bin, args...)
+					text := text + "\n# peg " + strings.Join(args, " ")
 					mu.Lock()
 					evals++
 					if anyDiag {
